@@ -114,6 +114,17 @@ pub open spec fn filter_map_seq<T, U>(s: Seq<T>, f: spec_fn(T) -> Option<U>) -> 
         match f(s.last()) { Some(u) => filter_map_seq(s.drop_last(), f).push(u), None => filter_map_seq(s.drop_last(), f) }
     }
 }
+// Y.iter().flat_map(C): the concatenation, in order, of what C yields for each element
+pub open spec fn flat_seq<T, U>(s: Seq<T>, g: spec_fn(T) -> Seq<U>) -> Seq<U> decreases s.len() {
+    if s.len() == 0 { Seq::empty() } else { flat_seq(s.drop_last(), g) + g(s.last()) }
+}
+#[verifier::external_body]
+pub fn vflat_map<T, U, F: Fn(&T) -> FmIter<U>>(xs: &Vec<T>, c: F, Ghost(g): Ghost<spec_fn(T) -> Seq<U>>) -> (r: FmIter<U>)
+    requires forall|x: T| c.requires((&x,)), forall|x: T, y: FmIter<U>| c.ensures((&x,), y) ==> y.v@ == g(x),
+    ensures r.v@ == flat_seq(xs@, g),
+{ unimplemented!() }
+// action::Handler: the event set of one action (Arc<[Event]> in the real code, read as a Vec here)
+pub struct Handler { pub events: Vec<Event> }
 #[verifier::external_body]
 pub fn vfilter_map<T, U, F: Fn(&T) -> Option<U>>(xs: &Vec<T>, c: F, Ghost(f): Ghost<spec_fn(T) -> Option<U>>) -> (r: FmIter<U>)
     requires forall|x: T| c.requires((&x,)), forall|x: T, y: Option<U>| c.ensures((&x,), y) ==> y == f(x),
